@@ -261,6 +261,7 @@ type h3eSpec struct {
 	respTrDecl   [][2]string
 	respTrUndecl [][2]string
 	gzip         bool
+	fakeCL       int // 204-less: a 304 response declaring the Content-Length of the representation, without content
 }
 
 func h3eShort(hs [][2]string) string {
@@ -276,8 +277,8 @@ func h3eShort(hs [][2]string) string {
 }
 
 func (s *h3eSpec) String() string {
-	return fmt.Sprintf("{id=%d %s ?%s reqHdr=%s reqBody=%dB declCL=%v reqTrailer=%s -> %d early=%v respHdr=%s respBody=%dB declCL=%v trailers=%s+%s gzip=%v}",
-		s.id, s.method, s.query, h3eShort(s.reqHdr), len(s.reqBody), s.reqDeclCL, h3eShort(s.reqTrailer), s.status, s.early, h3eShort(s.respHdr), len(s.respBody), s.respDeclCL, h3eShort(s.respTrDecl), h3eShort(s.respTrUndecl), s.gzip)
+	return fmt.Sprintf("{id=%d %s ?%s reqHdr=%s reqBody=%dB declCL=%v reqTrailer=%s -> %d early=%v respHdr=%s respBody=%dB declCL=%v trailers=%s+%s gzip=%v fakeCL=%d}",
+		s.id, s.method, s.query, h3eShort(s.reqHdr), len(s.reqBody), s.reqDeclCL, h3eShort(s.reqTrailer), s.status, s.early, h3eShort(s.respHdr), len(s.respBody), s.respDeclCL, h3eShort(s.respTrDecl), h3eShort(s.respTrUndecl), s.gzip, s.fakeCL)
 }
 
 type h3eSeen struct {
@@ -403,6 +404,9 @@ func h3eGenSpec(r *u.Rng, id int, thorough bool) *h3eSpec {
 		s.respHdr = append(s.respHdr, [2]string{nm, v})
 	}
 	bodyAllowed := s.status != 204 && s.status != 304
+	if s.status == 304 && r.Bool() {
+		s.fakeCL = r.Range(1, 100000)
+	}
 	if bodyAllowed {
 		s.respBody = h3eBody(r, thorough)
 		s.respChunks = h3eChunks(r, len(s.respBody))
@@ -538,6 +542,9 @@ func (wd *h3eWorld) handler(w http.ResponseWriter, r *http.Request) {
 	}
 	if s.respDeclCL {
 		w.Header().Set("Content-Length", strconv.Itoa(len(body)))
+	}
+	if s.fakeCL > 0 {
+		w.Header().Set("Content-Length", strconv.Itoa(s.fakeCL))
 	}
 	w.WriteHeader(s.status)
 	cr := &h3eChunkReader{data: body, chunks: chunks}
@@ -1123,8 +1130,9 @@ func (wd *h3eWorld) rawServerScenarios(stls, ctls *tls.Config, r *u.Rng, n int) 
 		resp     []byte
 		fin      bool
 		uni      [][]byte
-		wantBody []byte // non-nil: RoundTrip must succeed with 200 and exactly this body
-		wantErr  bool   // RoundTrip or body read must fail
+		wantBody []byte // non-nil: RoundTrip must succeed with wantCode (default 200) and exactly this body
+		wantCode int
+		wantErr  bool // RoundTrip or body read must fail
 		clUnder  bool
 	}
 	body := r.Bytes(r.Range(1, 5000))
@@ -1170,6 +1178,7 @@ func (wd *h3eWorld) rawServerScenarios(stls, ctls *tls.Config, r *u.Rng, n int) 
 		out = append(out, scen{name: "server-opens-two-control-streams", resp: append(append([]byte{}, ok...), h3eFrame(0, body)...), fin: true, uni: [][]byte{ctrlOK, ctrlOK}, wantErr: false})
 		out = append(out, scen{name: "status-1xx-then-200", resp: append(append(h3eHeaders(":status", "103", "link", "</x>"), ok...), h3eFrame(0, body)...), fin: true, uni: [][]byte{ctrlOK}, wantBody: body})
 		out = append(out, scen{name: "content-length-exact", resp: append(h3eHeaders(":status", "200", "content-length", strconv.Itoa(len(body))), h3eFrame(0, body)...), fin: true, uni: [][]byte{ctrlOK}, wantBody: body})
+		out = append(out, scen{name: "304-with-content-length-no-content", resp: h3eHeaders(":status", "304", "content-length", "12345", "etag", "x"), fin: true, uni: [][]byte{ctrlOK}, wantBody: []byte{}, wantCode: 304})
 		out = append(out, scen{name: "content-length-over", resp: append(h3eHeaders(":status", "200", "content-length", strconv.Itoa(half)), h3eFrame(0, body)...), fin: true, uni: [][]byte{ctrlOK}, wantErr: true})
 		out = append(out, scen{name: "content-length-under", resp: append(h3eHeaders(":status", "200", "content-length", strconv.Itoa(len(body)+7)), h3eFrame(0, body)...), fin: true, uni: [][]byte{ctrlOK}, clUnder: true})
 		return out
@@ -1208,7 +1217,11 @@ func (wd *h3eWorld) rawServerScenarios(stls, ctls *tls.Config, r *u.Rng, n int) 
 					wd.fail("h3/content-length-under", "response body shorter than its declared Content-Length: the client reads it to a clean EOF (no error)", detail+fmt.Sprintf(" declared=%d delivered=%d", len(body)+7, len(rb)))
 				}
 			case s.wantBody != nil:
-				if err != nil || rerr != nil || status != 200 || !bytes.Equal(rb, s.wantBody) {
+				wc := s.wantCode
+				if wc == 0 {
+					wc = 200
+				}
+				if err != nil || rerr != nil || status != wc || !bytes.Equal(rb, s.wantBody) {
 					key := "h3e2e/response-altered"
 					if strings.HasPrefix(s.name, "unknown") {
 						key = "h3e2e/unknown-not-ignored"
@@ -1333,9 +1346,9 @@ func h3eChild(w *bufio.Writer, seed uint64, n int) {
 	tr := &http3.Transport{TLSClientConfig: ctls.Clone()}
 	wd.exchange(tr, "https://"+addr, s, false)
 	tr.Close()
-	nRS := 20
+	nRS := 21
 	if thorough {
-		nRS = 20 * 5
+		nRS = 21 * 5
 	}
 	wd.rawServerScenarios(stls, ctls, r.Fork(), nRS)
 	wd.line("SCENARIO\tshutdown")
